@@ -31,8 +31,8 @@ CLAIMS.update({
    note="F4Jumble lengths: 48 quick plus one seeded member of {63,65,128}; 129 and 193 thorough. In the padding harness F4Jumble^-1 is replaced by the identity (its bijectivity is the other harness) and format! by an empty string. BLAKE2b output values, the Bech32/Bech32m/Base58Check string layer (HRP <-> network mapping, checksums, case), ZcashAddress parsing/encoding, containers of more than 2 items and symbolic item framing are outside the claim (string code and symbolic-length Vecs are out of CBMC's reach here). Uses the verif hook zcash_address::verif_hooks.",
    ref="§5 C10"),
  "C12": dict(
-   text="Narrow: memo bytes survive unchanged. MemoBytes::from_bytes for ALL inputs of length 512, 20 and 0 (stored array = input followed by zeros; as_slice = content without trailing zeros) and 513 (TooLong); encoding of the non-text Memo classes (Empty, Arbitrary, Future) reproduces the bytes.",
-   note="The ZIP 321 URI grammar, amount<->decimal conversion, percent-encoding, index and duplicate rules (format!/nom over &str) are outside the claim: CBMC did not get through format! of a 3-digit number in 11 minutes (DESIGN §3).",
+   text="Narrow: memo bytes survive unchanged. MemoBytes::from_bytes for ALL inputs of length 512, 20 and 0 (stored array = input followed by zeros; as_slice = content without trailing zeros) and 513 (TooLong); encoding of the non-text Memo classes (Empty, Arbitrary, Future) reproduces the bytes. Two kernels of the URI grammar through a hook: parse::indexed_name equals a byte-level reference of paramname[.paramindex] (no leading zero, at most four digits, exact sub-slices) for ALL ASCII strings of length 3 and 7 (5 and 9 thorough); parse::has_duplicate_param is true exactly when an earlier parameter has the same kind, unknown parameters being compared by NAME only (2 earlier parameters, symbolic kinds/names/values).",
+   note="from_uri/to_uri end to end, amount<->decimal conversion (format! with padding, str::parse), percent-encoding, Payment::new and address parameters are outside the claim: CBMC did not get through format! of a 3-digit number in 11 minutes (DESIGN §3). In the grammar harness <char as Pattern>::is_contained_in is stubbed by the equivalent byte loop for ASCII haystacks. Uses the verif hook zip321::verif_hooks.",
    ref="§5 C12"),
  "C13": dict(
    text="Merge algebra of the PCZT Global record: Global::merge equals, for ALL pairs of field values and all 256 flag bytes, the documented rule (same transaction required, bits 0/1/7 merge towards false, bit 2 towards true, reserved bits 3-6 rejected), is commutative and idempotent on valid records; associativity follows from the solver-checked associativity of that reference. merge_optional (the helper every optional PCZT field is merged with) for all Option<u32> triples: fails iff both present and different, keeps whatever either side carried, commutative/idempotent/associative.",
@@ -61,6 +61,9 @@ CLAIMS.update({
 })
 
 NOT_APPLICABLE = {
+ "C04": "txid/sighash commit-to-everything is injectivity of a BLAKE2b digest tree; with BLAKE2b abstracted only the dependency set of each digest would remain, and the digest code (blake2b_simd::State with private guts, Vec-built preimages over whole bundles) did not fit the memory budget measured for much smaller buffers (DESIGN section 3); no harness decides any clause, so nothing is claimed",
+ "C05": "scan_block cannot be compiled by Kani 0.68: kani-compiler panics (internal compiler error in codegen of an intrinsic, kani-compiler intrinsics.rs:243) on code reachable from scan_block even with an empty key set; the continuity kernels (check_hash_continuity, tree_sizes_around) are nested private functions no add-only hook can expose. A candidate defect found by reading is described in DESIGN section 7 but is not decided by any check",
+ "C06": "note-commitment-tree roots and checkpoints live in shardtree (external crate) over SQLite tables reached through rusqlite FFI; the only encodable kernels (checkpoint-height planning) do not imply any clause of the property, so nothing is claimed",
  "C01": "ledger state and all its transitions are SQL executed by SQLite via FFI; symbolic execution of the Rust code cannot see them and no encodable kernel implies the property",
  "C02": "atomicity/crash consistency/snapshot isolation are provided by SQLite's transaction and journal machinery (C code behind FFI, crash points, concurrent connections): out of reach of Kani/CBMC",
  "C08": "spendability is decided by SQL predicates inside SQLite; proposal constructors render and re-parse ZIP 321 URIs (format!/nom) and notes made of curve points: not encodable",
